@@ -19,6 +19,7 @@ import Mathlib.Algebra.Order.Field.Rat
 import Mathlib.Algebra.Order.Field.Basic
 import Mathlib.Tactic.Positivity
 import Sb.Model.Stats
+import Sb.Proofs.CertSound
 
 namespace Sb.C14
 open Sb Sb.Poly Sb.Stats
